@@ -74,7 +74,9 @@ fn cycle_groups_text() -> String {
         t.push_str(&format!("struct Q{g} {{ 1: optional R{g} r, 2: string s }}\n"));
         t.push_str(&format!("struct R{g} {{ 1: optional P{g} back, 2: optional A{g} side, 3: list<B{g}> bs }}\n"));
         t.push_str(&format!("struct A{g} {{ 1: optional B{g} b, 2: i64 x }}\n"));
-        t.push_str(&format!("struct B{g} {{ 1: optional A{g} a, 2: set<string> tags }}\n"));
+        // A and B can derive everything on their own: whether they do must not depend on the
+        // neighbouring cycle
+        t.push_str(&format!("struct B{g} {{ 1: optional A{g} a, 2: list<string> tags }}\n"));
         t.push_str(&format!("struct Holder{g} {{ 1: {bad} v }}\n"));
         t.push_str(&format!("union U{g} {{ 1: P{g} p, 2: A{g} a, 3: Holder{g} h }}\n"));
     }
